@@ -126,10 +126,15 @@ func runCase(t *testing.T, c *Case) (res *RunResult, w *World) {
 			if os.Getenv("VERIF_DEBUG") != "" {
 				fmt.Fprintf(os.Stderr, "---- case: %s\n---- log:\n%s\n", c.Summary, w.LogBuf.String())
 				for _, cl := range w.Clients {
-					fmt.Fprintf(os.Stderr, "client %s: hs=%v proto=%q errs=%v readerr=%q\n", cl.Name, cl.HandshakeOK, cl.NegProto, cl.StepErrs, cl.ReadErr)
+					fmt.Fprintf(os.Stderr, "client %s: hs=%v proto=%q errs=%v readerr=%q step=%d/%d done=%v resps=%d echo=%d\n", cl.Name, cl.HandshakeOK, cl.NegProto, cl.StepErrs, cl.ReadErr, cl.stepIdx, len(cl.Plan.Steps), cl.Done(), len(cl.Resps), len(cl.TunnelEcho))
 					for _, rf := range cl.Recv {
 						fmt.Fprintf(os.Stderr, "   recv@%d %s\n", rf.Step, rf.F.String())
 					}
+				}
+			}
+			if os.Getenv("VERIF_DEBUG") == "2" {
+				for _, g := range Census("httputil", "net/http.(*conn)", "harness.(*Client)", "backendTunnel") {
+					fmt.Fprintf(os.Stderr, "GOROUTINE %s\n\n", g)
 				}
 			}
 			res.Digest = w.Digest()
